@@ -12,10 +12,21 @@ META = {
                 "ext2fs_expand_dir over the real block iterator/allocator (iterator, allocator, zeroing are stubs; allocation failure, bigalloc, "
                 "huge_file, extent-mapped and inline directories outside), ext2fs_mkdir / ext2fs_symlink only as protocols over stubbed callees (fault schedules, "
                 "accounting ledger, arguments), not composed with the real allocator / link / inode writer; do_write_internal only as a protocol over stubbed callees "
-                "and a 4-directory model of ext2fs_namei (the real namei path walk, symlink following, do_mkdir/do_mknod/do_symlink_internal "
-                "and debugfs rm/rmdir are not encoded)",
-                "link counts, dir_nlink overflow rule, release of inode and blocks by debugfs rm/rmdir/kill_file",
-                "inline-data directories, casefolded/encrypted directories (SipHash, hash-in-dirent), blocksize >= 65536 rec_len encoding",
+                "and a 4-directory model of ext2fs_namei (do_mkdir/do_mknod/do_symlink_internal are not encoded)",
+                "ext2fs_namei path walk (namei) only through open_namei at the nesting limit (the public wrappers ext2fs_namei / ext2fs_namei_follow / "
+                "ext2fs_follow_link -- strlen + open_namei(.., 0) -- are only in the inconclusive thorough queries): component splitting, leading/trailing '/', '//', lookup errors, follow flag and "
+                "EXT2_ET_SYMLINK_LOOP for every symlink met at depth 8 are decided; symlink EXPANSION (target relative to the link's directory, fast / slow / "
+                "inline target source, depth accounting across nested calls, off-by-one of the limit) is only in thorough-tier queries that were never seen "
+                "to finish (inconclusive); paths longer than 4 bytes, names longer than 2 bytes",
+                "debugfs rm/rmdir/kill_file (rmdir_p, rm_p, killfile_p) only as a protocol over recording stubs (ext2fs_unlink, inode read/write, block iterator, "
+                "allocation statistics are not composed with the real library); rmdir of the root directory ('..' == itself), rm of an inode with zero links, "
+                "blocks of one cluster presented non-consecutively, mapped block/cluster 0, listings longer than 3 entries; dir_nlink overflow rule "
+                "(link count 1 = 'many') is only covered as 'never decremented below 1'",
+                "inline-data directories: link/unlink/lookup callbacks on inline areas (only a generic modifying callback is encoded), EA values other than "
+                "0/12/16/24 bytes, xattr/inode I/O failures during write back, malformed inline areas (EXT2_ET_DIR_CORRUPTED path), INCLUDE_REMOVED on inline "
+                "areas, big-endian swab paths; ext2fs_inline_data_expand outside ext2fs_inline_data_convert_dir (EA fetch/removal, block allocation, "
+                "ext2fs_write_dir_block4, extent/bmap setup, i_size/i_flags update, error unwinding); ext2fs_inline_data_file_expand",
+                "casefolded/encrypted directories (SipHash, hash-in-dirent), blocksize >= 65536 rec_len encoding",
                 "interleaving with e2fsck -D (rehash.c: see C05), e2fsck -fn verdict on the result, duplicate-name prevention (ext2fs_link does not check)",
                 "directory blocks larger than 64 bytes / more than 2 blocks; names longer than 8 bytes in link/unlink/lookup",
                 "keyed hashes end to end for all names AND all seeds in one query only in the thorough tier (quick tier proves packing, "
@@ -334,6 +345,123 @@ HARNESSES.append(
          cap_thorough=1500,
          bound="packing: all names up to 18 (TEA) / 34 (half-MD4) bytes; transform: all states and message words; seed selection: all seeds; "
                "legacy: all names of 1,4,5,8 bytes; glue: fixed vectors of 7..37 bytes; thorough: all names of 5/8 bytes and all seeds end to end"))
+
+def namei_cfgs():
+    c = []
+    def mk(kind, lc, follow, **kw):
+        n = 62 if kind else 8
+        d = {"KIND": kind, "LC": lc, "FOLLOW": follow}
+        d["_unwindset"] = ["vf_type.0:6", "vf_tlen.0:6", "vf_target.0:62", "vf_target.1:62", "vf_target.2:62",
+                           "stub_lookup.0:6", "ref_lookup.0:6", "stub_read_inode.0:5", "stub_read_blk64.0:66",
+                           "stub_inline_data_get.0:62", "ref_walk.0:%d" % n, "ref_walk.1:%d" % n,
+                           "dir_namei.0:%d" % n, "dir_namei.1:%d" % n, "strlen.0:8", "memset.0:66"] + \
+                          ["main.%d:8" % i for i in range(6)]
+        d.update(kw)
+        return d
+    # whole walk at the depth limit: every component split / leading and trailing '/' / "//" / lookup error / follow flag,
+    # every symlink met is EXT2_ET_SYMLINK_LOOP
+    c.append(mk(0, 8, 0))
+    c.append(mk(0, 8, 1))
+    # follow_link one level below the limit: one expansion (target walk at depth 8), fast / slow / inline target source
+    # INCONCLUSIVE: never seen to complete (400 s under load), kept in the thorough tier only
+    c.append(mk(0, 7, 1, FLINK=None, _tier="thorough"))
+    c.append(mk(1, 7, 1, FLINK=None, _tier="thorough"))
+    c.append(mk(2, 7, 1, FLINK=None, _tier="thorough"))
+    # INCONCLUSIVE (symbolic execution does not finish in 15 min: the real recursion is explored to the unwind bound on every
+    # component): mk(0, 0, 0, DMAX=1), mk(0, 0, 1, DMAX=1), mk(0, 7, 0), mk(0, 7, 1), mk(0, 6, 1), mk(0, 0, 1, FLINK=None)
+    return c
+
+HARNESSES.append(
+    dict(name="namei", src="namei.c",
+         funcs=["open_namei", "dir_namei", "follow_link"],
+         extra_src=["lib/ext2fs/symlink.c"],
+         configs=namei_cfgs(), unwind=4,
+         backends=["default", "kissat"], cap_quick=300,
+         bound="namespace of 4 inodes of symbolic type, 4 symbolic directory entries (names of 1..2 symbolic bytes), symbolic root/cwd; "
+               "path of 0..4 symbolic bytes; symlink targets of 1..3 symbolic bytes (fast) or 3 symbolic + 57 constant bytes (slow / inline); "
+               "one symlink expansion from depth 0 through the public entry points (two through ext2fs_follow_link), starting depths 7, 8 (6 thorough) "
+               "up to the limit of 8; slow / inline targets through follow_link at depth 7 (whole walk: thorough)"))
+
+def rmdir_cfgs(op):
+    uw = ["main.%d:6" % i for i in range(8)] + ["stub_dir_iterate2.0:5", "stub_block_iterate3.0:5", "stub_block_alloc_stats2.0:5",
+          "ref_release.0:5", "ref_release.1:5", "ref_release.2:5", "vf_check_released.0:5", "strrchr.0:8", "memcmp.0:200"]
+    c = []
+    for d in ({"OP": 1}, {"OP": 1, "PATHKIND": 1}, {"OP": 1, "CBITS": 2}, {"OP": 2}, {"OP": 2, "PATHKIND": 1, "CBITS": 2}, {"OP": 3}, {"OP": 3, "CBITS": 2}):
+        if d["OP"] != op:
+            continue
+        d = dict(d)
+        d["_unwindset"] = uw
+        c.append(d)
+    return c
+
+RM_BOUND = ("directory listing of 3 symbolic entries (inode, name of 1..3 bytes); 0..3 symbolic blocks, cluster ratio 1 or 4; both whole "
+            "128-byte inodes symbolic; every failure schedule of name resolution, the first 8 inode reads/writes, iteration and unlink; "
+            "path 'x1' or 'd/x1'")
+# one entry per command (funcs are checked against the first config only); same source file
+HARNESSES.append(
+    dict(name="rmdir_p", src="rmdir_p.c",
+         funcs=["do_rmdir", "rmdir_proc", "kill_file_by_inode", "release_blocks_proc", "unlink_file_by_name"],
+         configs=rmdir_cfgs(1), unwind=4, backends=["default", "kissat"], cap_quick=300, bound=RM_BOUND))
+HARNESSES.append(
+    dict(name="rm_p", src="rmdir_p.c",
+         funcs=["do_rm", "kill_file_by_inode", "release_blocks_proc", "unlink_file_by_name"],
+         configs=rmdir_cfgs(2), unwind=4, backends=["default", "kissat"], cap_quick=300, bound=RM_BOUND))
+HARNESSES.append(
+    dict(name="killfile_p", src="rmdir_p.c",
+         funcs=["do_kill_file", "kill_file_by_inode", "release_blocks_proc"],
+         configs=rmdir_cfgs(3), unwind=4, backends=["default", "kissat"], cap_quick=300, bound=RM_BOUND))
+
+# ---- inline-data directory paths (inl_iter, inl_expand) ----
+# harnesses of the inline-data directory paths (exec()ed by spec.py, list appended to HARNESSES)
+
+def inl_iter_unwind(ea):
+    nslot = 2 + 14 + ea // 4 + 1
+    return ["ref_scan.0:15", "vf_is_system_data.0:13",
+            "stub_xattr_get.0:%d" % (ea + 1), "stub_xattr_set.0:%d" % (ea + 1),
+            "vf_cb.0:%d" % (nslot + 1),
+            "ext2fs_process_dir_block.0:16", "ext2fs_process_dir_block.1:10"] + \
+           ["main.%d:%d" % (i, 62) for i in range(24)]
+
+def inl_iter_cfgs():
+    c = []
+    def mk(ea, lflags=0, **kw):
+        d = {"EASZ": ea, "LFLAGS": lflags}
+        d["_unwindset"] = inl_iter_unwind(ea)
+        d.update(kw)
+        return d
+    c.append(mk(16))
+    c.append(mk(0, 0, WITH_ABORT=None, _tier="thorough"))   # 152 s under load
+    c.append(mk(12, 1, WITH_ABORT=None))
+    c.append(mk(24, 1, _tier="thorough"))
+    c.append(mk(16, 0, WITH_ABORT=None, _tier="thorough"))
+    c.append(mk(0, 0, NEG=1))
+    c.append(mk(12, 0, NEG=2))
+    return c
+
+HARNESSES_INLINE = [
+    dict(name="inl_iter", src="inl_iter.c",
+         funcs=["ext2fs_inline_data_dir_iterate", "ext2fs_inline_data_ea_get", "ext2fs_inline_data_ea_set",
+                "ext2fs_process_dir_block"],
+         extra_harness_src=["C10/iter_unit.c"],
+         configs=inl_iter_cfgs(), unwind=4,
+         unwindset=inl_iter_unwind(16),
+         backends=["default", "kissat"],
+         cap_quick=300,
+         bound="one inline-data directory: all 60 bytes of i_block and all 0/12/16/24 bytes of the system.data value symbolic under WF "
+               "(both dirent areas tile exactly); callback modifies the entry of one symbolic invocation (inode, file type symbolic) and "
+               "aborts at one symbolic invocation; iterator flags 0 / INCLUDE_EMPTY; inode without inline-data flag / non-directory refused"),
+    dict(name="inl_expand", src="inl_expand.c",
+         funcs=["ext2fs_inline_data_convert_dir", "ext2fs_set_rec_len", "ext2fs_get_rec_len", "ext2fs_initialize_dirent_tail"],
+         extra_harness_src=["C10/iter_unit.c"], extra_src=["lib/ext2fs/csum.c"],
+         configs=[{"EASZ": 16, "WITH_CSUM": None, "WITH_FILETYPE": None}, {"EASZ": 0}, {"EASZ": 24, "WITH_FILETYPE": None}],
+         unwind=4,
+         unwindset=["ref_scan.0:15", "ext2fs_inline_data_convert_dir.0:9", "memcpy.0:90", "memset.0:20"] + ["main.%d:%d" % (i, 130) for i in range(12)],
+         backends=["default", "kissat"],
+         cap_quick=300,
+         bound="inline image of 60 + 0/16/24 bytes, every byte symbolic under WF; block size 128; features {filetype, metadata_csum} per query"),
+]
+HARNESSES += HARNESSES_INLINE
+
 MANIFEST = {
     "text": "Bounded-exhaustive inductive step on one directory block: from every well-formed block (all bytes symbolic, 40-64 bytes) "
             "one ext2fs_link / leaf insert / ext2fs_unlink with symbolic name bytes, inode and flags changes the listing seen by an "
@@ -344,8 +472,18 @@ MANIFEST = {
             "before. ext2fs_expand_dir accounts i_size/i_blocks for every block it allocates (0..3 mapping blocks + data block) and writes "
             "an empty well-formed block. New directory blocks hold exactly '.' and '..'. The name hash equals the kernel's definition "
             "(packing, transform, seed and result selection decided for all inputs separately; end to end in the thorough tier) "
-            "except for the kernel's EOF remap (reported finding).",
+            "except for the kernel's EOF remap (reported finding). debugfs rmdir refuses every directory whose listing holds anything but unused "
+            "entries, '.' and '..' (and every non-directory, unresolved or unreadable name) without any effect; on success it removes the name once, "
+            "writes the inode with zero links and a deletion time, releases each mapped cluster and the inode exactly once (as a directory) and drops "
+            "the parent's link count by exactly one, never below 1; rm refuses directories, drops the link count by one and releases inode and blocks "
+            "exactly when it reached zero; kill_file releases with isdir matching the inode type (rmdir_p, rm_p, killfile_p: one source, over recording stubs). open_namei's walk "
+            "(what ext2fs_namei / ext2fs_namei_follow run) at nesting depth 8 equals an independent resolver on a symbolic 4-inode namespace for every path of 0..4 bytes "
+            "(namei). Inline-data directories: ext2fs_inline_data_dir_iterate reports exactly '.', '..' (parent from i_block[0]), the i_block area and "
+            "the system.data area as an independent reader sees them, and writes a callback's change back to exactly the right store (parent word / "
+            "inode / EA value) leaving every other byte; ext2fs_inline_data_convert_dir produces byte for byte the block '.' + '..' + all inline "
+            "records with the last rec_len extended to the block end and the checksum tail initialised (inl_iter, inl_expand).",
     "note": "Trusted: CBMC's C semantics, the harness reader (vf_scan) as definition of a well-formed block, stubs for block "
-            "mapping/read/write/checksum. Not covered: sequences, leaf split, the real block iterator/allocator under expand_dir, mkdir/rm/rmdir link "
-            "counts and freeing, inline data, e2fsck interplay; see 'outside'.",
+            "mapping/read/write/checksum; for rmdir_p the recording stubs of the library entry points; for inl_* the inode and xattr handle functions "
+            "stubbed as a one-attribute store that always succeeds. Not covered: sequences, the real block iterator/allocator under expand_dir, "
+            "symlink expansion in namei (inconclusive), rm/rmdir composed with the real library, e2fsck interplay; see 'outside'.",
 }
